@@ -23,7 +23,10 @@ def main():
     ap.add_argument("--seed", type=int, default=1)
     ap.add_argument("ids", nargs="*")
     a = ap.parse_args()
+    def masked(i):      # kept for the record, indistinguishable from a listed known finding (DESIGN 11.16)
+        return "masked_by_known_finding" in json.load(open(os.path.join(VERIF, "seeded", i, "meta.json")))
     ids = a.ids or sorted(os.path.basename(os.path.dirname(p)) for p in glob.glob(os.path.join(VERIF, "seeded", "C*", "meta.json")))
+    ids = [i for i in ids if a.ids or not masked(i)]
     missed = []
     with cf.ThreadPoolExecutor(max_workers=a.j) as ex:
         for sid, prop, line in ex.map(one, [(i, a.seed) for i in ids]):
